@@ -21,6 +21,7 @@ CLAIMS = {
  'C12': dict(text='Theorems for every payload, segmentation/chunking and poll-answer sequence, both directions and both types: cancelled at the first poll => nothing else happens; otherwise begin once, end once at the end, notify sums to the bytes moved, no block after the first true poll; the cancel path sends ABOR, reads a second reply after 426 and closes the data socket without graceful shutdown.', design='4/C12', note=PROTO_NOTE, technique='Coq proof (induction over blocks with the callback as an oracle) + differential correspondence with recording callbacks'),
  'C14': dict(text='Theorem for every program, world and script: what a call adds to the trace decomposes into actions such that every observer sees exactly the transcript (each event as many times as it is registered, none when removed), requests before the line is written, replies after they are read, in wire order; add appends, remove drops all registrations.', design='4/C14', note=PROTO_NOTE, technique='Coq proof (induction over the free monad of operations) + differential correspondence with recording observers'),
  'C17': dict(text='Theorem for every history, configuration and script: after every call (returned, thrown or blocked) no data socket and no listener is held, the control socket exactly while connected. The tie to descriptors is the correspondence (/proc/self/fd after every call and after destruction).', design='4/C17', note=PROTO_NOTE, technique='Coq proof (scope bracket + no-data-primitive induction) + descriptor accounting in the differential runs'),
+ "C20": dict(text="Theorems about a model of command_handler / cmdline_interface::run / main on top of the protocol model, for every input script, local file system and peer script: the run ends with the success status and only at exit / end of input (an invalid line, a cmdline_exception and an ftp_exception are printed and the loop goes on); a connection-needing command given while disconnected answers 'Connection is not open.' and does nothing else (no library call, no prompt, no file access); get refuses an existing local file without touching it, touches no other local file whatever happens, and removes the file it created when the replies are not positive; after a library error the handler has left the client disconnected with a plain socket. PARTIAL: the local file system is a finite map (regular files, names up to 255 bytes; directories, symlinks, permissions, NUL in names, signals and terminal handling are not modelled); that the real process exits with status 0 and leaves every other file alone is observed on the real binary.", design="4/C20", note="Trusted: Coq 8.16.1 kernel; no axioms; extraction via ExtrOcamlBasic; OCaml glue (ocaml/driver_proto.ml run_app). The model (coq/App.v) is hand-written and tied to the code by piping generated input scripts into the REAL cmdline binary (app/cmdline/src/*.cpp + the library, built from /repo's working tree) in a scratch directory against bin/peer.py and comparing exit status, stdout (texts of ftp_exception opaque), the final working directory and the command lines the peer saw with the extracted model. Modelled, not verified: libstdc++ iostream/filesystem, the kernel.", technique="Coq proof (case analysis on the handler, induction over the main loop's fuel) + differential correspondence with the real binary as a subprocess"),
  "C15": dict(text="Theorems over all codes and all reply sequences (classes partition, aggregate positive iff non-empty and all "
                   "positive, CR LF join, arrival order) about a Gallina model of reply/replies; model tied to the code by an "
                   "exhaustive sweep of all 65536 codes and enumerated/random reply sequences.",
